@@ -44,15 +44,15 @@ type verifWrite struct {
 }
 
 type verifPacketConn struct {
-	name      string
-	reads     []verifRead
-	readPos   int
-	endErr    error // returned when the script is exhausted (default net.ErrClosed)
-	writes    []verifWrite
-	writeErr  error
-	deadlines []time.Time
-	closed    int
-	local     net.Addr
+	name            string
+	reads           []verifRead
+	readPos         int
+	endErr          error // returned when the script is exhausted (default net.ErrClosed)
+	writes          []verifWrite
+	writeErr        error
+	deadlines       []time.Time
+	closed          int
+	local           net.Addr
 	readsAfterClose int
 	noCopy          bool // keep only the slice header of writes (for symbolic lengths)
 	mu              sync.Mutex
@@ -171,28 +171,28 @@ type verifSRead struct {
 }
 
 type verifStreamConn struct {
-	name        string
-	reads       []verifSRead
-	readPos     int
-	off         int
-	endErr      error // after the script (default io.EOF)
-	written     []byte
-	writeCalls  int
-	writeErr    error
-	events      []string
-	deadlines   []time.Time
-	remote      net.Addr
-	local       net.Addr
-	closed      int
-	closedRead  int
-	closedWrite int
-	bytesRead   int
-	readCalls   int
-	readsAfterEnd int
+	name             string
+	reads            []verifSRead
+	readPos          int
+	off              int
+	endErr           error // after the script (default io.EOF)
+	written          []byte
+	writeCalls       int
+	writeErr         error
+	events           []string
+	deadlines        []time.Time
+	remote           net.Addr
+	local            net.Addr
+	closed           int
+	closedRead       int
+	closedWrite      int
+	bytesRead        int
+	readCalls        int
+	readsAfterEnd    int
 	writesAfterClose int
-	bulk          int // after the script: this many more bytes arrive (content irrelevant)
-	onRead        func(call int) // optional hook run at the start of each Read
-	glog          *[]string // optional cross-connection event log
+	bulk             int            // after the script: this many more bytes arrive (content irrelevant)
+	onRead           func(call int) // optional hook run at the start of each Read
+	glog             *[]string      // optional cross-connection event log
 }
 
 func (c *verifStreamConn) ev(name string) {
